@@ -1123,3 +1123,188 @@ Proof.
     destruct (Nat.lt_ge_cases j n0) as [Hj | Hj]; [exact (Hnone j t Hj Hd)|].
     unfold n0 in Hj. apply nth_error_None in Hj. congruence.
 Qed.
+
+(* ---------------------------------------------------------------------------------------- *)
+(* SND.UNA never moves back                                                                  *)
+(* ---------------------------------------------------------------------------------------- *)
+Lemma una_step_mono fa st ev st' :
+  NI st -> opts_ok st -> zsafe x st -> zsafe x st' -> fair_ev fa st ev -> net_step st ev = Ok st' ->
+  una_off (net_get st x) <= una_off (net_get st' x).
+Proof.
+  intros HN Ho HR HR' Hfe H.
+  destruct (net_step_kind _ _ _ H) as [w ev0 e' Hse He E | to i E1 _ E | d E1 E | w isn ts E1 E | to i Hd].
+  - destruct (side_cases x w) as [Ew | Ew]; subst w st'.
+    2:{ pose proof (net_get_set_other st (side_other x) e') as X. rewrite side_other_inv in X. rewrite X. lia. }
+    rewrite net_get_set_same.
+    pose proof (NI_live st x HN) as Ix. destruct (HN x) as (Hcx & _).
+    pose proof (zs_est x st HR x) as Hst. pose proof (zs_est x _ HR' x) as Hst'.
+    pose proof (zs_txb x st HR) as Htxb.
+    destruct (zs_tuple x st HR x) as (t & Htu & Hta). destruct (Ho x) as (Hto & _).
+    unfold net_sock in *. rewrite net_get_set_same in Hst'.
+    destruct (ep_step_spec _ _ _ He) as (s' & out & tags & Hs & Hk & _).
+    destruct ev; cbn [sock_event] in Hse; try contradiction.
+    + destruct Hse as (-> & p & Hn & ->).
+      pose proof (ep_step_una_off _ (EvSegment (fst p) (wire_parse (snd p))) _ _ _ _ I (li_tx _ Ix) He Hs ltac:(discriminate)) as Hu.
+      cbn [tcp_step] in Hs. apply obind_ok in Hs. destruct Hs as (((s1 & rp) & tg) & Hi & Hs).
+      assert (E : s1 = s') by (inversion Hs; reflexivity). subst s1.
+      pose proof (nth_error_In _ _ Hn) as Hin.
+      rewrite (ingress_is_process _ _ _ (zs_acc x st HR x p Hin)) in Hi. unfold net_sock in Hi.
+      rewrite Hk in Hst'.
+      assert (Htx31 : rb_len (s_tx_buffer (ep_sock (net_get st x))) < 2 ^ 31)
+        by (change (2 ^ 30) with 1073741824 in Htxb; change (2 ^ 31) with 2147483648; lia).
+      destruct (process_sender_core _ _ _ _ _ _ _ Hcx (seg_ok_parse (snd p)) Ix Hst Hst' Htx31 Hi) as [Hshr | (_ & T)];
+        rewrite Hu; [lia | rewrite T; lia].
+    + destruct Hse as (-> & ->). cbn [fair_ev] in Hfe. subst emit_ok.
+      pose proof (ep_step_una_off _ (EvDispatch true) _ _ _ _ I (li_tx _ Ix) He Hs ltac:(discriminate)) as Hu.
+      cbn [tcp_step] in Hs. apply obind_ok in Hs. destruct Hs as (((s1 & rs) & tg) & Hd & Hs).
+      assert (E : s1 = s') by (inversion Hs; auto). subst s1.
+      destruct (dispatch_una_tx _ _ _ _ _ _ _ Ix Hst Hto Htu Hta Hd) as (_ & D2 & _). rewrite Hu, D2. lia.
+    + destruct Hse as (-> & ->).
+      destruct (ep_step_send_una_off _ _ _ (li_tx _ Ix) He) as (U1 & _). lia.
+    + destruct Hse as (-> & ->).
+      pose proof (ep_step_una_off _ (EvRecv (Z.max 0 n)) _ _ _ _ I (li_tx _ Ix) He Hs ltac:(discriminate)) as Hu.
+      cbn [tcp_step] in Hs.
+      destruct (tcp_recv_slice (ep_sock (net_get st x)) (Z.max 0 n)) as [(s2, b)|err|] eqn:E; [| |discriminate].
+      * assert (E1 : s2 = s') by (inversion Hs; reflexivity). subst s2.
+        destruct (recv_slice_core _ _ _ _ E) as (_ & _ & _ & C4 & _). rewrite Hu, C4. lia.
+      * assert (E1 : s' = ep_sock (net_get st x)) by (inversion Hs; reflexivity). rewrite Hu, E1. lia.
+    + destruct Hse as (-> & ->). exfalso.
+      cbn [tcp_step] in Hs. assert (E1 : tcp_close (ep_sock (net_get st x)) = s') by (inversion Hs; reflexivity).
+      rewrite Hk, <- E1 in Hst'. unfold tcp_close in Hst'. rewrite Hst in Hst'. sproj in Hst'. discriminate.
+  - subst st'. lia.
+  - subst st'. destruct (tick_same st d x) as (X1 & X2 & _). unfold una_off. rewrite X1, X2. lia.
+  - subst st'. destruct (rand_same st w isn ts x) as (X1 & X2 & _). unfold una_off. rewrite X1, X2. lia.
+  - exfalso. destruct Hd as [-> | ->]; exact Hfe.
+Qed.
+
+Lemma una_run_mono : forall evs fa st st',
+  NI st -> opts_ok st -> run_all (zsafe x) st evs -> fair_run Dt Da fa st evs -> net_run st evs = Ok st' ->
+  una_off (net_get st x) <= una_off (net_get st' x).
+Proof.
+  induction evs as [|ev r IH]; intros fa st st' HN Ho HR Hf Hrun; cbn [net_run] in Hrun.
+  - inversion Hrun; subst. lia.
+  - apply obind_ok in Hrun. destruct Hrun as (st1 & Hs & Hr).
+    cbn [fair_run] in Hf. destruct Hf as (Hfe & Hf). rewrite Hs in Hf.
+    cbn [run_all] in HR. destruct HR as (HR0 & HR1). rewrite Hs in HR1.
+    pose proof (una_step_mono fa st ev st1 HN Ho HR0 (run_all_here _ _ _ HR1) Hfe Hs).
+    specialize (IH _ st1 st' (NI_step _ _ _ HN Hs) (opts_step _ _ _ Ho Hs) HR1 Hf Hr). lia.
+Qed.
+
+Lemma una_prefix_mono : forall pre post fa st st1,
+  NI st -> opts_ok st -> run_all (zsafe x) st (pre ++ post) -> fair_run Dt Da fa st (pre ++ post) ->
+  net_run st pre = Ok st1 -> una_off (net_get st x) <= una_off (net_get st1 x).
+Proof.
+  induction pre as [|ev r IH]; intros post fa st st1 HN Ho HR Hf Hrun; cbn [net_run app] in *.
+  - inversion Hrun; subst. lia.
+  - apply obind_ok in Hrun. destruct Hrun as (st2 & Hs & Hr).
+    cbn [fair_run] in Hf. destruct Hf as (Hfe & Hf). rewrite Hs in Hf.
+    cbn [run_all] in HR. destruct HR as (HR0 & HR1). rewrite Hs in HR1.
+    pose proof (una_step_mono fa st ev st2 HN Ho HR0 (run_all_here _ _ _ HR1) Hfe Hs).
+    specialize (IH post _ st2 st1 (NI_step _ _ _ HN Hs) (opts_step _ _ _ Ho Hs) HR1 Hf Hr). lia.
+Qed.
+
+Lemma run_all_zs : forall evs st, run_all zsafe2 st evs -> run_all (zsafe x) st evs.
+Proof.
+  induction evs as [|ev r IH]; intros st H; cbn [run_all] in *.
+  - destruct H as ((A & _) & _). split; [exact A | exact I].
+  - destruct H as ((A & _) & H). split; [exact A|]. destruct (net_step st ev); try exact I. apply IH. exact H.
+Qed.
+
+(* the reader's round: y's buffer is not empty - the application reads within Da *)
+Theorem zround_read : forall evs fa st st' d0,
+  0 <= Dt -> 0 <= Da ->
+  NI st -> opts_ok st -> dl_sync Da fa st -> dlb fa st ->
+  run_all zsafe2 st evs -> fair_run Dt Da fa st evs -> once_run Dt Da fa st evs -> net_run st evs = Ok st' ->
+  read_off (net_get st y) = d0 -> d0 < rcv_off (net_get st y) ->
+  net_now st y + Da < net_now st' y ->
+  exists pre post fa1 st1,
+    evs = pre ++ post /\ net_run st pre = Ok st1 /\ net_run st1 post = Ok st' /\
+    run_all zsafe2 st1 post /\ fair_run Dt Da fa1 st1 post /\ once_run Dt Da fa1 st1 post /\
+    NI st1 /\ opts_ok st1 /\ dl_sync Da fa1 st1 /\ dlb fa1 st1 /\
+    d0 < read_off (net_get st1 y) /\ net_now st1 y <= net_now st y + Da.
+Proof.
+  intros evs fa st st' d0 HDt HDa HN Ho Hsy Hb HRun Hfair Honce Hrun Hrd Hne Hlate.
+  set (T := net_now st y + Da).
+  assert (HJ : JR x Da d0 T fa st /\ dlb fa st).
+  { split; [|exact Hb].
+    split; [exact HN|]. split; [exact Ho|]. split; [exact Hsy|]. split; [exact Hrd|]. split; [exact Hne|]. fold y.
+    split; [unfold T; lia|].
+    destruct Hsy as (_ & Hr). specialize (Hr y). pose proof (zrx_is_diff x st) as Hd. fold y in Hd.
+    destruct (fa_rd fa y) as [t|]; [|lia]. exists t. split; [reflexivity|]. unfold T. lia. }
+  destruct (rel_leads Dt Da zsafe2 (fun fa s => JR x Da d0 T fa s /\ dlb fa s) (fun _ s => d0 < read_off (net_get s y)) y T
+              ltac:(intros fa0 st0 ((_ & _ & _ & _ & _ & A & _) & _); exact A)
+              ltac:(intros fa0 st0 ev0 st0' Z0 Z0' (J0 & B0) F0 _ S0;
+                    destruct (JR_step x Dt Da _ _ _ _ _ _ (proj1 Z0) (proj1 Z0') J0 F0 S0) as [X | X];
+                    [left; exact X | right; split; [exact X | exact (dlb_after _ _ _ _ HDt B0 F0 S0)]])
+              evs fa st st' HJ HRun Hfair Honce Hrun Hlate)
+    as (pre & post & fa1 & st1 & -> & Hp1 & Hp2 & HR1 & Hf1 & Ho1 & HQ & fa0 & st0 & ev0 & HJ0 & _ & Hfe0 & Hs0 & ->).
+  destruct HJ0 as ((HN0 & Ho0 & Hsy0 & Hrd0 & _ & Hclk0 & _) & Hb0). fold y in Hclk0, Hrd0.
+  exists pre, post, (fa_after Dt Da fa0 ev0 st1), st1.
+  split; [reflexivity|]. split; [exact Hp1|]. split; [exact Hp2|]. split; [exact HR1|]. split; [exact Hf1|].
+  split; [exact Ho1|]. split; [exact (NI_step _ _ _ HN0 Hs0)|]. split; [exact (opts_step _ _ _ Ho0 Hs0)|].
+  split; [exact (fa_after_sync Dt Da _ _ _ _ Hsy0 Hfe0 Hs0)|]. split; [exact (dlb_after _ _ _ _ HDt Hb0 Hfe0 Hs0)|].
+  split; [exact HQ|].
+  rewrite (net_step_now _ _ _ y Hs0). destruct ev0; try (unfold T in *; lia).
+  exfalso. rewrite (net_step_tick _ _ _ Hs0) in HQ. destruct (tick_same st0 d y) as (_ & _ & E3 & _).
+  unfold read_off in *. rewrite E3 in HQ. lia.
+Qed.
+
+(* ---------------------------------------------------------------------------------------- *)
+(* STEPS 4 + 5: ALL WRITTEN OCTETS ARE DELIVERED, zero windows included                        *)
+(* ---------------------------------------------------------------------------------------- *)
+Theorem all_written_bytes_eventually_delivered_zw : forall n evs fa st st' L0,
+  0 <= Dt -> 0 <= Da ->
+  NI st -> opts_ok st -> dl_sync Da fa st -> dlb fa st ->
+  run_all zsafe2 st evs -> fair_run Dt Da fa st evs -> once_run Dt Da fa st evs -> net_run st evs = Ok st' ->
+  L0 <= l_len (ep_written (net_get st x)) ->
+  Z.max 0 (L0 - una_off (net_get st x)) + Z.max 0 (L0 - read_off (net_get st y)) <= Z.of_nat n ->
+  net_now st x + Z.of_nat n * Wz < net_now st' x ->
+  exists pre post st1, evs = pre ++ post /\ net_run st pre = Ok st1 /\ net_run st1 post = Ok st' /\
+                       L0 <= read_off (net_get st1 y).
+Proof.
+  intros n. induction n as [|n IH]; intros evs fa st st' L0 HDt HDa HN Ho Hsy Hb HRun Hfair Honce Hrun HL Hn Hlate.
+  - exists [], evs, st. split; [reflexivity|]. split; [reflexivity|]. split; [exact Hrun | lia].
+  - destruct (Z_le_gt_dec L0 (read_off (net_get st y))) as [Hdone | Hmore].
+    { exists [], evs, st. split; [reflexivity|]. split; [reflexivity|]. split; [exact Hrun | exact Hdone]. }
+    pose proof max_rto_us_pos as Hmr.
+    assert (HW : 0 <= Wz) by (unfold Wz; lia).
+    pose proof (run_all_here _ _ _ HRun) as (HZ & HM).
+    assert (Hlate1 : net_now st x + Wz < net_now st' x) by (rewrite Nat2Z.inj_succ in Hlate; nia).
+    assert (Hrnd : exists pre post fa1 st1,
+              evs = pre ++ post /\ net_run st pre = Ok st1 /\ net_run st1 post = Ok st' /\
+              run_all zsafe2 st1 post /\ fair_run Dt Da fa1 st1 post /\ once_run Dt Da fa1 st1 post /\
+              NI st1 /\ opts_ok st1 /\ dl_sync Da fa1 st1 /\ dlb fa1 st1 /\
+              (read_off (net_get st y) < read_off (net_get st1 y) \/
+               (una_off (net_get st x) < L0 /\ una_off (net_get st x) < una_off (net_get st1 x))) /\
+              net_now st1 x <= net_now st x + Wz).
+    { destruct (Z_lt_le_dec (read_off (net_get st y)) (rcv_off (net_get st y))) as [Hne | Hemp].
+      - pose proof (net_run_skew2 _ _ _ y x Hrun) as Hsk.
+        destruct (zround_read evs fa st st' _ HDt HDa HN Ho Hsy Hb HRun Hfair Honce Hrun eq_refl Hne
+                    ltac:(unfold Wz in Hlate1; lia))
+          as (pre & post & fa1 & st1 & E & Hp1 & Hp2 & HR1 & Hf1 & Ho1 & HN1 & Hoo1 & Hsy1 & Hb1 & HQ & Hclk).
+        exists pre, post, fa1, st1. repeat (split; [assumption|]). split; [left; exact HQ|].
+        pose proof (net_run_skew2 _ _ _ y x Hp1) as Hsk1. unfold Wz. lia.
+      - assert (Hul : una_off (net_get st x) < L0).
+        { destruct (zs_cross x st HZ) as (_ & Hk0 & _). fold y in Hk0. lia. }
+        assert (Hl : 0 < txl x st) by (unfold txl, una_off, net_sock in *; lia).
+        destruct (zround evs fa st st' _ _ HDt HDa HN Ho Hsy Hb HRun Hfair Honce Hrun eq_refl eq_refl (or_introl Hl) Hlate1)
+          as (pre & post & fa1 & st1 & E & Hp1 & Hp2 & HR1 & Hf1 & Ho1 & HN1 & Hoo1 & Hsy1 & Hb1 & HG & Hclk).
+        exists pre, post, fa1, st1. repeat (split; [assumption|]). split; [|exact Hclk].
+        destruct HG as [X | X]; [right; split; assumption | left; exact X]. }
+    destruct Hrnd as (pre & post & fa1 & st1 & -> & Hp1 & Hp2 & HR1 & Hf1 & Ho1 & HN1 & Hoo1 & Hsy1 & Hb1 & HG & Hclk).
+    pose proof (una_prefix_mono pre post fa st st1 HN Ho (run_all_zs _ _ HRun) Hfair Hp1) as Hum.
+    assert (Hrm : read_off (net_get st y) <= read_off (net_get st1 y)).
+    { destruct (net_run_mono _ _ _ Hp1 y) as (_ & Hr & _). apply TcpNetCompose_l_len_prefix in Hr. exact Hr. }
+    assert (HL1 : L0 <= l_len (ep_written (net_get st1 x))).
+    { destruct (net_run_mono _ _ _ Hp1 x) as (Hw & _). apply TcpNetCompose_l_len_prefix in Hw. lia. }
+    assert (Hn1 : Z.max 0 (L0 - una_off (net_get st1 x)) + Z.max 0 (L0 - read_off (net_get st1 y)) <= Z.of_nat n).
+    { rewrite Nat2Z.inj_succ in Hn. destruct HG as [X | (X1 & X2)]; lia. }
+    assert (Hlate2 : net_now st1 x + Z.of_nat n * Wz < net_now st' x).
+    { rewrite Nat2Z.inj_succ in Hlate. nia. }
+    destruct (IH post fa1 st1 st' L0 HDt HDa HN1 Hoo1 Hsy1 Hb1 HR1 Hf1 Ho1 Hp2 HL1 Hn1 Hlate2)
+      as (pre2 & post2 & st2 & -> & Hq1 & Hq2 & HU).
+    exists (pre ++ pre2), post2, st2. split; [rewrite app_assoc; reflexivity|].
+    split; [eapply net_run_app; eassumption|]. split; assumption.
+Qed.
+
+End Zr.
